@@ -449,6 +449,13 @@ class TCPClient(_TCPPooling, interfaces.TokenInterface):
             protocol._transport.abort()
             raise error.LibraryShutdown()
 
+        if (host, port) in self._pool:
+            # A concurrent request to the same host was faster. Only one
+            # connection per host can be filed in the pool; any other would
+            # never be released.
+            protocol._transport.abort()
+            return self._pool[(host, port)]
+
         self._pool[(host, port)] = protocol
 
         return protocol
